@@ -225,6 +225,7 @@ func checkC02Decode(c *Check) {
 			}
 		}
 	}
+	c.openBytesStable("C02.6 open-bytes-stable")
 	c.tlvLoopRules("C02.4 optional-parameters", "decodeOptionalParams", 0)
 	c.tlvLoopRules("C02.4 capabilities", "capabilityOptionalParam.decode", 1)
 
@@ -398,4 +399,70 @@ func checkC02OpenSent(c *Check) {
 		c.require(okA, "C02.5 opensent-arguments", "openMessage.getCapabilities", "append in loop", p.Pos(gc.Pos()),
 			"capabilities of every capability parameter are appended in order inside the parameter loop")
 	}
+}
+
+// byteRoots collects the roots of a []byte value through slicing and phis.
+func byteRoots(v ssa.Value, seen map[ssa.Value]bool, out *[]ssa.Value) {
+	if seen[v] {
+		return
+	}
+	seen[v] = true
+	switch x := v.(type) {
+	case *ssa.Slice:
+		byteRoots(x.X, seen, out)
+	case *ssa.Phi:
+		for _, e := range x.Edges {
+			byteRoots(e, seen, out)
+		}
+	default:
+		*out = append(*out, v)
+	}
+}
+
+// openBytesStable: what validate() and OnOpenMessage look at must be the
+// bytes of the OPEN that was received. Capability values are sub-slices of
+// the decoder's input wherever a store to Capability.Value is rooted at a
+// []byte parameter; then the reader must hand the decoder a buffer that is
+// allocated per message (the reader reads the next message while the FSM
+// goroutine is still validating / inside the plugin callback).
+func (c *Check) openBytesStable(rule string) {
+	p := c.P
+	aliases := []string{}
+	n := 0
+	for _, fn := range p.FuncSeq {
+		allInstrs(fn, func(in ssa.Instruction) {
+			st, ok := in.(*ssa.Store)
+			if !ok {
+				return
+			}
+			fa, ok := st.Addr.(*ssa.FieldAddr)
+			if !ok || structFieldName(fa) != "Value" || structNameOfPtr(fa.X.Type()) != "Capability" {
+				return
+			}
+			n++
+			var roots []ssa.Value
+			byteRoots(st.Val, map[ssa.Value]bool{}, &roots)
+			for _, r := range roots {
+				if pr, isP := r.(*ssa.Parameter); isP {
+					aliases = append(aliases, p.Name(fn)+":"+pr.Name())
+				}
+			}
+		})
+	}
+	rd := p.Fn("fsm.read")
+	perIter := false
+	if rd != nil {
+		for _, cl := range p.callsIn(rd, descIs("messageFromBytes")) {
+			if allocInLoop(cl.Common().Args[0]) {
+				perIter = true
+			}
+		}
+	}
+	c.floor(rule, n, 1, "stores to Capability.Value")
+	pos := "-"
+	if rd != nil {
+		pos = p.Pos(rd.Pos())
+	}
+	c.require(len(aliases) == 0 || perIter, rule, "fsm.read", "decoded OPEN does not alias a reused buffer", pos,
+		fmt.Sprintf("Capability.Value aliases the decoder input at %v; the reader's body buffer is allocated per message = %v (otherwise the next read rewrites the capabilities under validate()/OnOpenMessage)", dedup(aliases), perIter))
 }
